@@ -88,6 +88,7 @@ type loopCtx struct {
 	entrySt  *State // state at header after havoc
 	variant0 Term
 	fnOld    *State
+	preSt    *State
 }
 
 func (e *Enc) pos(fr *Frame, p token.Pos) string {
@@ -259,7 +260,7 @@ func (e *Enc) load(st *State, a *Addr) Term {
 			parts = append(parts, sel(e.heapGet(st, key), a.ref, fs).S)
 		}
 		if u.NumFields() == 0 {
-			parts = append(parts, "0")
+			return Term{"mk_" + a.sort, a.sort}
 		}
 		return Term{"(mk_" + a.sort + " " + strings.Join(parts, " ") + ")", a.sort}
 	}
